@@ -53,6 +53,7 @@ type SpecFunc struct {
 	Body       *SX
 	BodySrc    string
 	Recursive  bool
+	Opaque     bool // declared uninterpreted with a pattern-triggered defining axiom
 	Pkg        *ssa.Package
 	File       string
 	GoBody     string
@@ -96,6 +97,15 @@ type Engine struct {
 	typeTags map[string]int
 	errText map[string]int
 	funcIndex map[string]*ssa.Function
+	reassigned map[*ssa.Global]bool
+	macros map[string]*Macro
+	records map[string]*Sort
+	recordOrder []string
+}
+
+type Macro struct {
+	Params []string
+	Body   *SX
 }
 
 func (e *Engine) useSpecFunc(n string) { e.usedSpec[n] = true }
@@ -154,6 +164,9 @@ func loadEngine(repo string, patterns []string) (*Engine, error) {
 		}
 	}
 	e.errConst("io.EOF")
+	e.macros = map[string]*Macro{}
+	e.records = map[string]*Sort{}
+	e.ghosts["cb_n"] = sInt
 	return e, nil
 }
 
@@ -328,6 +341,40 @@ func (e *Engine) loadSpecFile(path string, pkg *ssa.Package) error {
 		case "ghostfield":
 			f := strings.Fields(rest)
 			e.ghostFields[f[0]] = e.sortByName(e.tcProto, f[1], pkg)
+		case "record": // record Name(f sort, g sort)
+			m := regexp.MustCompile(`^([A-Za-z_][A-Za-z0-9_]*)\s*\(([^)]*)\)$`).FindStringSubmatch(rest)
+			if m == nil {
+				return fmt.Errorf("%s: bad record %q", path, rest)
+			}
+			rs := &Sort{K: KRecord, Name: m[1]}
+			for _, p := range strings.Split(m[2], ",") {
+				f := strings.Fields(p)
+				if len(f) != 2 {
+					return fmt.Errorf("%s: bad record field %q", path, p)
+				}
+				rs.Fields = append(rs.Fields, f[0])
+				rs.Elems = append(rs.Elems, e.sortByName(e.tcProto, f[1], pkg))
+			}
+			e.records[m[1]] = rs
+			e.recordOrder = append(e.recordOrder, m[1])
+			cur = nil
+		case "macro": // macro name(a, b) = expr   (expanded in place, may read the heap)
+			m := regexp.MustCompile(`^([A-Za-z_][A-Za-z0-9_]*)\s*\(([^)]*)\)\s*=\s*(.*)$`).FindStringSubmatch(rest)
+			if m == nil {
+				return fmt.Errorf("%s: bad macro %q", path, rest)
+			}
+			x, err := ParseSpec(m[3])
+			if err != nil {
+				return fmt.Errorf("%s: %v", path, err)
+			}
+			mc := &Macro{Body: x}
+			for _, p := range strings.Split(m[2], ",") {
+				if p = strings.TrimSpace(p); p != "" {
+					mc.Params = append(mc.Params, p)
+				}
+			}
+			e.macros[m[1]] = mc
+			cur = nil
 		case "spec":
 			if err := e.parseSpecFunc(rest, pkg, path); err != nil {
 				return err
@@ -394,14 +441,14 @@ func splitTop(s string) []string {
 	return out
 }
 
-var reSpecSig = regexp.MustCompile(`^(rec\s+)?([A-Za-z_][A-Za-z0-9_]*)\s*\(([^)]*)\)\s*([A-Za-z0-9_.]+)\s*(=\s*(.*))?$`)
+var reSpecSig = regexp.MustCompile(`^(rec\s+|opaque\s+)?([A-Za-z_][A-Za-z0-9_]*)\s*\(([^)]*)\)\s*([A-Za-z0-9_.]+)\s*(=\s*(.*))?$`)
 
 func (e *Engine) parseSpecFunc(s string, pkg *ssa.Package, path string) error {
 	m := reSpecSig.FindStringSubmatch(s)
 	if m == nil {
 		return fmt.Errorf("%s: bad spec function %q", path, s)
 	}
-	sf := &SpecFunc{Name: m[2], Recursive: m[1] != "", Pkg: pkg, File: path}
+	sf := &SpecFunc{Name: m[2], Recursive: strings.HasPrefix(m[1], "rec"), Opaque: strings.HasPrefix(m[1], "opaque"), Pkg: pkg, File: path}
 	if strings.TrimSpace(m[3]) != "" {
 		for _, p := range strings.Split(m[3], ",") {
 			f := strings.Fields(p)
@@ -464,6 +511,14 @@ func (e *Engine) loadAllSpecs(specDir string) error {
 func (u *Unit) specPreamble(extraAxioms []string) string {
 	e := u.eng
 	var sb strings.Builder
+	for _, rn := range e.recordOrder {
+		rs := e.records[rn]
+		sb.WriteString(fmt.Sprintf("(declare-datatypes ((R_%s 0)) (((mk-R_%s", rn, rn))
+		for i, f := range rs.Fields {
+			sb.WriteString(fmt.Sprintf(" (R_%s.%s %s)", rn, f, u.tc.smt(rs.Elems[i])))
+		}
+		sb.WriteString("))))\n")
+	}
 	// close usedSpec under bodies: simply emit all spec functions in declaration order that are used
 	// (bodies are evaluated first so that their own uses get registered)
 	type def struct{ name, text string }
@@ -499,6 +554,18 @@ func (u *Unit) specPreamble(extraAxioms []string) string {
 				}
 				if body.T.K == KBV && sf.Result.K == KInt {
 					body = u.toInt(body)
+				}
+				if sf.Opaque {
+					var srt, as []string
+					for i, s := range sf.ParamSorts {
+						srt = append(srt, u.tc.smt(s))
+						as = append(as, "p_"+sf.Params[i])
+					}
+					appl := "(" + n + " " + strings.Join(as, " ") + ")"
+					defs[n] = fmt.Sprintf("(declare-fun %s (%s) %s)\n(assert (forall (%s) (! (= %s %s) :pattern (%s))))", n, strings.Join(srt, " "), u.tc.smt(sf.Result),
+						strings.Join(ps, " "), appl, body.S, appl)
+					changed = true
+					continue
 				}
 				kw := "define-fun"
 				if sf.Recursive {
@@ -659,4 +726,26 @@ func (e *Engine) errTexts() map[string]int {
 	}
 	e.errText["govc injected fault"] = 5000
 	return e.errText
+}
+
+// globalReassigned reports whether a package-level variable is stored to outside its package's init.
+func (e *Engine) globalReassigned(g *ssa.Global) bool {
+	if e.reassigned == nil {
+		e.reassigned = map[*ssa.Global]bool{}
+		for fn := range ssautil.AllFunctions(e.prog) {
+			if fn.Name() == "init" && fn.Synthetic != "" {
+				continue
+			}
+			for _, b := range fn.Blocks {
+				for _, ins := range b.Instrs {
+					if st, ok := ins.(*ssa.Store); ok {
+						if gg, ok := st.Addr.(*ssa.Global); ok {
+							e.reassigned[gg] = true
+						}
+					}
+				}
+			}
+		}
+	}
+	return e.reassigned[g]
 }
